@@ -115,7 +115,7 @@ func runContracts(eng *Engine, prop, fnFilter, work string, timeout time.Duratio
 		if fnFilter != "" && !strings.Contains(k, fnFilter) {
 			continue
 		}
-		sel := hasProp(fc.Props, prop)
+		sel := hasProp(fc.Props, prop) || prop == "C08" // C08: the lock discipline of every function under contract
 		if !sel {
 			for _, ps := range fc.ClausePropsEns {
 				if hasProp(ps, prop) {
@@ -181,7 +181,15 @@ func runContracts(eng *Engine, prop, fnFilter, work string, timeout time.Duratio
 		sort.Strings(fr.Assumptions)
 		n := 0
 		for _, o := range vc.obls {
-			if prop != "" && !hasProp(o.Props, prop) && !o.Cover {
+			if prop == "C08" {
+				// only the obligations of the locking protocol (and the precondition's satisfiability)
+				switch {
+				case o.Kind == "guarded" || o.Kind == "lock" || o.Kind == "lock-balance" || o.Kind == "monitor":
+				case o.Cover && strings.HasSuffix(o.Name, "#cover:requires"):
+				default:
+					continue
+				}
+			} else if prop != "" && !hasProp(o.Props, prop) && !o.Cover {
 				continue
 			}
 			jobs = append(jobs, job{vc, o})
@@ -312,6 +320,14 @@ func runContracts(eng *Engine, prop, fnFilter, work string, timeout time.Duratio
 	for _, r := range results {
 		if r.Verdict == "failed" || r.Verdict == "failed-nomodel" || r.Verdict == "vacuous" {
 			run.Failed++
+		}
+	}
+	if (prop == "" || prop == "C08") && fnFilter == "" {
+		for _, r := range eng.guardCoverage() {
+			if r.Verdict != "discharged" {
+				run.Failed++
+			}
+			results = append(results, r)
 		}
 	}
 	run.Obls = results
